@@ -16,7 +16,8 @@ branches included:
   `deleteAttributeExpireLookup` :582, `ValidateExpirationDate` :590.
 * `x/attribute/keeper/msg_server.go`: AddAttribute, UpdateAttribute,
   UpdateAttributeExpiration, DeleteAttribute, DeleteDistinctAttribute.
-* `x/attribute/abci.go`: `BeginBlocker` = `DeleteExpiredAttributes(ctx, 100000)` (the sweep as
+* `x/attribute/abci.go`: `BeginBlocker` = `DeleteExpiredAttributes(ctx, MaxExpiredAttributionCount)`,
+  the constant being 100 000 (the sweep as
   repaired by commit f2249cacd; the earlier sweep is kept as `stepPreFix` for the witnesses).
 * `x/name/keeper/msg_server.go`: BindName :32 (under an unrestricted parent), DeleteName :99
   (`DeleteRecord` then `attrKeeper.PurgeAttribute`), ModifyName :162 (does not touch
@@ -28,9 +29,16 @@ Names in messages need not be normalised: a message is an `SOp` = the message wi
 NORMALISED name (`Op`) plus a `Spelling` saying how the three key functions of the Go code treat
 the raw spelling (section "non-normalised spellings" below, `stepS`).  Stored names (name
 records, attribute records) are always normalised, so `State` is unchanged.
-Not modelled (assumptions of `checks/C16.json`): the max-value-length parameter, the 100 000
-per-block cap of the sweep, metadata scope addresses as attribute holders.
+The sweep's per-block cap (`attribute.MaxExpiredAttributionCount` = 100 000, abci.go:12) IS
+modelled: `deleteExpiredAttributes s limit` is the Go loop with its deletion counter and `break`,
+run over the due queue entries in STORE-KEY order (time, address, sha256(reversed name),
+sha256(value)) — `storeOrder`, the only place where the real SHA-256 (`PvModel.Sha256`) enters;
+the lemmas about the sweep hold for every processing order (`PvProofs.Lemmas.AttrCap`).
+Not modelled (assumptions of `checks/C16.json`): the max-value-length parameter, metadata scope
+addresses as attribute holders.
 -/
+import PvModel.Sha256
+
 namespace PvModel.Attr
 
 /-! ### association lists with unique keys (one per key space of the store) -/
@@ -262,11 +270,80 @@ def expireOne (s : State) (q : Nat × Key) : State :=
     | none => s
   { s1 with queue := s1.queue.filter (fun q' => decide (q' ≠ q)) }
 
-/-- `DeleteExpiredAttributes` (keeper.go:532) without the count limit: every queue entry with
-time strictly before the block time (`store.Iterator(prefix, prefix|blockTime)`, end
-exclusive). -/
-def deleteExpiredAttributes (s : State) : State :=
-  (s.queue.filter (fun q => decide (q.1 < s.now))).foldl expireOne s
+/-- `attribute.MaxExpiredAttributionCount` (x/attribute/abci.go:12): the most attributes one
+`BeginBlocker` deletes. -/
+def maxExpiredAttributionCount : Nat := 100000
+
+/-- The test of keeper.go:546-551 on one queue entry: an attribute is stored under the entry's key
+and the entry is the one of its currently stored expiration — exactly the entries for which the
+loop deletes a record and increments `count`. -/
+def isLive (s : State) (q : Nat × Key) : Bool :=
+  match getAttr s q.2 with
+  | some a => decide (a.exp = some q.1)
+  | none => false
+
+/-- The deletion loop of `DeleteExpiredAttributes` (keeper.go:542-573) over the collected
+`expirationKeys`: `count` is the number of attributes deleted so far; after each entry
+`if limit != 0 && count >= limit { break }`. -/
+def expireLoop (limit : Nat) : Nat → List (Nat × Key) → State → State
+  | _, [], s => s
+  | count, q :: rest, s =>
+    let count' := if isLive s q then count + 1 else count
+    if limit ≠ 0 ∧ limit ≤ count' then expireOne s q else expireLoop limit count' rest (expireOne s q)
+
+/-! #### store-key order of the expiration queue
+
+`AttributeExpireKey` (types/keys.go:53) = 0x04 | 8-byte big-endian unix time | length-prefixed
+address | sha256(reversed lower-cased name) | sha256(value); the iterator of
+`DeleteExpiredAttributes` returns the keys in ascending byte order.  Addresses are symbolic in the
+model; the harness' account addresses are equally long and ordered like their symbols. -/
+
+def orderedInsert {α} (le : α → α → Bool) (a : α) : List α → List α
+  | [] => [a]
+  | b :: t => if le a b then a :: b :: t else b :: orderedInsert le a t
+
+def insertionSort {α} (le : α → α → Bool) : List α → List α
+  | [] => []
+  | a :: t => orderedInsert le a (insertionSort le t)
+
+/-- a digest as the big-endian number (comparing digests as byte strings = comparing these) -/
+def digestNat (bs : List UInt8) : Nat := bs.foldl (fun acc b => acc * 256 + b.toNat) 0
+
+/-- `reverse` (types/keys.go:128): the segments of a name in reverse order. -/
+def reverseName (name : String) : String := ".".intercalate (name.splitOn ".").reverse
+
+/-- `GetNameKeyBytes` (types/keys.go:107) of a normalised name. -/
+def nameKeyHash (name : String) : Nat := digestNat (Sha256.sumString (reverseName name))
+
+/-- `Attribute.Hash` (types/attribute.go:44). -/
+def valueHash (value : String) : Nat := digestNat (Sha256.sumString value)
+
+/-- a queue entry with the two digests of its key -/
+abbrev Decorated := (Nat × Key) × Nat × Nat
+
+def decorate (q : Nat × Key) : Decorated := (q, nameKeyHash q.2.2.1, valueHash q.2.2.2)
+
+/-- byte order of two expiration keys; a digest is looked at only where the hashed strings differ -/
+def storeLe (a b : Decorated) : Bool :=
+  if a.1.1 ≠ b.1.1 then decide (a.1.1 < b.1.1)
+  else if a.1.2.1 ≠ b.1.2.1 then decide (a.1.2.1 < b.1.2.1)
+  else if a.1.2.2.1 ≠ b.1.2.2.1 then decide (a.2.1 ≤ b.2.1)
+  else if a.1.2.2.2 ≠ b.1.2.2.2 then decide (a.2.2 ≤ b.2.2)
+  else true
+
+/-- the entries in the order the store iterator returns them -/
+def storeOrder (l : List (Nat × Key)) : List (Nat × Key) :=
+  (insertionSort storeLe (l.map decorate)).map (·.1)
+
+/-- The collection loop of `DeleteExpiredAttributes` (keeper.go:536-540): every queue entry with
+time strictly before the block time (`store.Iterator(prefix, prefix|blockTime)`, end exclusive),
+in key order. -/
+def dueEntries (s : State) : List (Nat × Key) :=
+  storeOrder (s.queue.filter (fun q => decide (q.1 < s.now)))
+
+/-- `DeleteExpiredAttributes(ctx, limit)` (keeper.go:532); `limit = 0` means no limit. -/
+def deleteExpiredAttributes (s : State) (limit : Nat) : State :=
+  expireLoop limit 0 (dueEntries s) s
 
 /-! ### name module messages -/
 
@@ -328,7 +405,7 @@ def step (s : State) : Op → Except Err State
   | .bind name owner => bindName s name owner
   | .transfer authority name newOwner => modifyName s authority name newOwner
   | .deleteName signer name => deleteName s signer name
-  | .beginBlock t => .ok (deleteExpiredAttributes { s with now := t })
+  | .beginBlock t => .ok (deleteExpiredAttributes { s with now := t } maxExpiredAttributionCount)
 
 /-- A rejected message changes nothing (the transaction is rolled back). -/
 def apply (s : State) (op : Op) : State :=
@@ -416,6 +493,14 @@ def applyS (s : State) (x : SOp) : State :=
   | .error _ => s
 
 def runS (s : State) (xs : List SOp) : State := xs.foldl applyS s
+
+/-- All messages of one transaction: the first refusal rolls everything back (op line `bulk`:
+many `MsgAddAttribute` messages that differ only in the value). -/
+def stepAll (s : State) : List SOp → Except Err State
+  | [] => .ok s
+  | x :: t => match stepS s x with
+    | .ok s' => stepAll s' t
+    | .error e => .error e
 
 /-! ### the sweep before commit f2249cacd (historical; only for the `…_before_fix` witnesses)
 
